@@ -27,6 +27,7 @@ package task
 import (
 	"sync"
 
+	"github.com/AliceO2Group/Control/common/verifhook"
 	"github.com/AliceO2Group/Control/core/controlcommands"
 	"github.com/AliceO2Group/Control/core/task/channel"
 )
@@ -103,6 +104,7 @@ func (m *roster) getTasks() Tasks {
 }
 
 func (m *roster) updateTasks(tasks Tasks) {
+	verifhook.Point("task.roster.update", "n", len(tasks))
 	m.mu.Lock()
 	defer m.mu.Unlock()
 
